@@ -9,12 +9,14 @@ import Driver.Ops.Ignore
 import Driver.Ops.Glob
 import Driver.Ops.Precedence
 import Driver.Ops.Covered
+import Driver.Ops.Effects
 open Proto
 
 def step (line : String) : String :=
   let fields := line.splitOn "\t"
   match Ops.stepStr fields <|> Ops.stepIgnore fields <|> Ops.stepGlob fields <|> Ops.stepDep5 fields
-    <|> Ops.stepPrecedence fields <|> Ops.stepCovered fields with
+    <|> Ops.stepPrecedence fields <|> Ops.stepCovered fields
+    <|> Ops.stepEffects fields with
   | some out => out
   | none => "bad-op"
 
